@@ -71,6 +71,11 @@ PKIND = z3.Function("mime_payload_kind", MimeS, z3.IntSort())            # get_p
 PBYTES = z3.Function("mime_payload_bytes", MimeS, BytesS)
 PSTR = z3.Function("mime_payload_str", MimeS, S)
 HDR = z3.Function("mime_header_or_empty", MimeS, S, S)                   # part.get(name, "")
+HeaderS = ext_sort("HeaderObj")
+HOBJ = z3.Function("mime_header_object", MimeS, S, HeaderS)               # the Header object `get` returns instead
+HTEXT = z3.Function("header_object_as_str", HeaderS, S)                   # str(<Header object>)
+DEC_RAISES = z3.Function("mime_decode_content_raises", MimeS, z3.BoolSort())   # _decode_content(part) raises (its own `raises` obligation says: never)
+HDR_IS_STR = z3.Function("mime_header_is_str", MimeS, S, z3.BoolSort())  # ... is a str (ASCII-only value or absent), not a Header object
 ENC = z3.Function("str_encode_utf8_replace", S, BytesS)
 QP = z3.Function("quopri_decodestring", BytesS, BytesS)
 QP_OK = z3.Function("quopri_decodestring_returns", BytesS, z3.BoolSort())
@@ -319,9 +324,21 @@ def m_mime_get_payload(ex, st, o, a, k, n):
 
 
 def m_mime_get(ex, st, o, a, k, n):
+    """part.get(name, ""): the header value as a str -- or, for a value with non-ASCII bytes, an `email.header.Header` OBJECT
+    (compat32 policy; validated natively: `message_from_bytes(b"X: 8bit\\xe9\\n\\n").get("X")`), which is not a str."""
     if len(a) == 2 and isinstance(a[0], VStr) and isinstance(a[1], VStr) and a[1].const() == "" and not k:
-        return [(st, VStr(HDR(o.t, a[0].t)))]
+        out = []
+        for cond, v in ((HDR_IS_STR(o.t, a[0].t), VStr(HDR(o.t, a[0].t))), (z3.Not(HDR_IS_STR(o.t, a[0].t)), VExt("HeaderObj", HOBJ(o.t, a[0].t)))):
+            s2 = st.fork().assume(cond)
+            if ex.feasible(s2.pc):
+                out.append((s2, v))
+        return out
     return [(st, VUnk("header"))]
+
+
+def m_header_obj_str_method(ex, st, o, a, k, n):
+    ex.raise_in(st, ex.mk_exc("AttributeError"))          # a Header object has none of the str methods
+    return []
 
 
 def m_str_encode(ex, st, args, kwargs, node):
@@ -341,7 +358,7 @@ def m_partial_decoder(fn, ok, what):
             b = args[0].t
             bad = st.fork().assume(z3.Not(ok(b)))
             if ex.feasible(bad.pc):
-                ex.exc_any(bad, f"{ex.loc(node)} {what}")
+                ex.raise_in(bad, ex.mk_exc("ValueError"))       # binascii.Error is a ValueError; a modelled outcome, not an unknown call
             st.assume(ok(b))
             return [(st, VExt("Bytes", fn(b)))] if ex.feasible(st.pc) else []
         ex.exc_any(st.fork(), f"{ex.loc(node)} {what}")
@@ -391,6 +408,8 @@ def install_mime(reg):
     reg.method_models[("MimeMsg", "walk")] = m_mime_walk
     reg.method_models[("MimeMsg", "get_payload")] = m_mime_get_payload
     reg.method_models[("MimeMsg", "get")] = m_mime_get
+    for nm in ("lower", "upper", "strip", "casefold", "startswith", "endswith", "split"):
+        reg.method_models[("HeaderObj", nm)] = m_header_obj_str_method
     reg.method_models[("Bytes", "lower")] = lambda ex, st, o, a, k, n: [(st, VExt("Bytes", BLOWER(o.t)))]
     reg.ext_models["str.encode"] = m_str_encode
     reg.ext_models["quopri.decodestring"] = m_partial_decoder(QP, QP_OK, "quopri.decodestring")
@@ -646,6 +665,8 @@ def contracts():
     fhp = FnContract(
         target=f"{MHTML}::_find_html_part", params=[("msg", P_MIME)],
         ensures=[("result-is-the-complete-decoded-first-text/html-part-(None-only-when-there-is-none)", fhp_result)],
+        raises=[Raises("Exception", sub=True, label="only what _decode_content raises on the part it is given (that callee's own obligation)",
+                       when=lambda c: z3.Or([p_ for p_ in c.st.pc if z3.is_app(p_) and p_.decl().eq(DEC_RAISES)] + [z3.BoolVal(False)]))],
         total=True,
         note="VERIFIED (round 7) over the abstract MIME view; the ASSUMED registration below is the call-site view of _extract_from_mhtml: "
              "the verified clause makes the result a function of the message (MIME_HAS / MIMEPART are definable from it), which is all it states",
@@ -671,7 +692,8 @@ def contracts():
         from pyvc.values import VBytes
         m, r = c.args["part"].t, c.result
         pb = ENC(PSTR(m))
-        enc = LOWER(HDR(m, z3.StringVal("Content-Transfer-Encoding")))
+        cte = z3.StringVal("Content-Transfer-Encoding")
+        enc = LOWER(z3.If(HDR_IS_STR(m, cte), HDR(m, cte), HTEXT(HOBJ(m, cte))))
         qp, b64 = enc == z3.StringVal("quoted-printable"), enc == z3.StringVal("base64")
         kd = PKIND(m)
         if isinstance(r, VBytes) and not r.items:
@@ -693,7 +715,10 @@ def contracts():
     out.append(FnContract(
         target=f"{MHTML}::_decode_content", params=[("part", P_UNK)], assumed=True,
         returns=lambda c: VExt("Bytes", DEC(c.args["part"].t)) if _is_mime(c.args.get("part")) else VExt("Bytes"),
-        note="call-site view of the verified contract above: total, a function of the part (DEC abbreviates the verified case analysis)",
+        raises=[Raises("Exception", sub=True, when=lambda c: DEC_RAISES(c.args["part"].t) if _is_mime(c.args.get("part")) else z3.BoolVal(True),
+                       label="whatever the real body raises: its own `raises` obligation (verified registration) says never")],
+        note="call-site view of the verified contract above: a function of the part (DEC abbreviates the verified case analysis; DEC_RAISES is "
+             "uninterpreted: that it is false is the verified registration's `raises` obligation, refuted on the library HEAD -- recorded finding)",
     ))
 
     def mh_calls(c):
